@@ -276,22 +276,32 @@ Fixpoint contains_bsnl (s : str) : bool :=
 Definition fold_body (t : str) : str := rm_bsnl (fold1 (F0 []) t).
 Definition fold_lines (t : str) : str := if contains_bsnl t then fold_body t else t.
 
-(** proposed repair (notes/C16-fix-2.patch): escaped backslashes (pairs, from the
-    left of each run) are put out of the way first, so that a newline after an
-    EVEN number of backslashes is not a continuation *)
-Fixpoint hide_pairs (s : str) : str :=
+(** proposed repair (notes/C16-fix-3.patch): ONE pass over the characters that
+    replaces both replace_all calls. [o] = the output so far (reversed), [odd] =
+    parity of the backslashes just pushed, [joining] = just after a continuation
+    (blanks are swallowed), [sep] = blanks were seen around it. A newline after an
+    ODD number of backslashes is a continuation: the backslash and the blanks
+    before it are taken back, the blanks after it skipped, one blank inserted if
+    there were any. A newline after an even number is an ordinary character. *)
+Fixpoint drop_blanks (o : str) : str :=
+  match o with c :: r => if is_blank c then drop_blanks r else o | [] => [] end.
+
+Fixpoint fold3 (o : str) (odd joining sep : bool) (s : str) : str :=
   match s with
-  | c :: ((d :: r') as r) => if (c =? c_bs) && (d =? c_bs) then 0 :: 0 :: hide_pairs r' else c :: hide_pairs r
-  | _ => s
+  | [] => rev (if joining && sep then c_space :: o else o)
+  | c :: r =>
+      if joining && is_blank c then fold3 o odd true true r
+      else
+        let o1 := if joining && sep then c_space :: o else o in
+        if (c =? c_nl) && odd then
+          let o2 := tl o1 in
+          let o3 := drop_blanks o2 in
+          fold3 o3 false true (Nat.ltb (length o3) (length o2)) r
+        else fold3 (c :: o1) (if c =? c_bs then negb odd else false) false sep r
   end.
-Fixpoint unhide_pairs (s : str) : str :=
-  match s with
-  | c :: ((d :: r') as r) => if (c =? 0) && (d =? 0) then c_bs :: c_bs :: unhide_pairs r' else c :: unhide_pairs r
-  | _ => s
-  end.
+
 Definition fold_lines_fixed (t : str) : str :=
-  let h := hide_pairs t in
-  if contains_bsnl h then unhide_pairs (fold_body h) else t.
+  if contains_bsnl t then fold3 [] false false false t else t.
 
 (** every newline is preceded by an even number of backslashes: no line of the
     text asks for a continuation *)
